@@ -122,13 +122,13 @@ func zzKVOp(st kvs.Storage, m *zzKV, vers *zzVersions, keyOf func(string) string
 	case 0: // Create
 		key := keyOf("key")
 		rec := kvs.Record{Key: key, Value: valOf("val"), Version: "caller-version", ExpiresAt: expOf("exp")}
-		cancelled := vBool("ctxDone")
+		cancelled := vParam("CTXCHECK") == 1 && vBool("ctxDone")
 		if cancelled {
 			ctx.(*zzCtx).cancel()
 		}
 		ver, err := st.Create(ctx, rec)
 		i := m.idx(key)
-		if cancelled && vParam("CTXCHECK") == 1 {
+		if cancelled {
 			vAssert(err == context.Canceled, "Create with a done context did not return the context's error")
 			vReach("op-done")
 			return
